@@ -1,0 +1,36 @@
+//! Verification hooks (feature `verif-hooks`). Additive only: nothing here is
+//! compiled, and no behaviour changes, unless the feature is enabled.
+use crate::story::Story;
+
+impl Story {
+    /// Bound the number of interpreter steps all later continues may take in
+    /// total. When the fuel runs out the running continue ends with the
+    /// ordinary error path and the message `VERIF_FUEL`.
+    pub fn verif_set_fuel(&mut self, fuel: Option<u64>) {
+        self.verif_fuel = fuel;
+    }
+
+    /// Remaining fuel, if any was set.
+    pub fn verif_fuel_left(&self) -> Option<u64> {
+        self.verif_fuel
+    }
+
+    /// Fix the story seed (and clear the previous random number), so that
+    /// RANDOM, shuffles and LIST_RANDOM are a function of this value.
+    pub fn verif_set_story_seed(&mut self, seed: i32) {
+        self.get_state_mut().story_seed = seed;
+        self.get_state_mut().previous_random = 0;
+    }
+
+    /// Virtual clock for `continue_async`: when set, a time-limited continue
+    /// pauses after this many interpreter steps (the wall clock is still
+    /// consulted, so pass a huge millisecond limit).
+    pub fn verif_set_async_step_budget(&mut self, budget: Option<u32>) {
+        self.verif_async_step_budget = budget;
+    }
+
+    /// `true` while a time-limited continue has been started and not finished.
+    pub fn verif_async_active(&self) -> bool {
+        self.async_continue_active
+    }
+}
